@@ -61,8 +61,8 @@ contract(Q + 'generate_segment_size', 'C19',
          },
          invariants={1: {'clauses': {
              'len': 'len(segment_sizes) == number_of_segments',
-             'done': 'forall(lambda q: segment_sizes[q] == base_value + 1, 0, _k)',
-             'todo': 'forall(lambda q: segment_sizes[q] == base_value, _k, number_of_segments)',
+             'done': 'forall(lambda q: segment_sizes[q] == sample_size // number_of_segments + 1, 0, _k)',
+             'todo': 'forall(lambda q: segment_sizes[q] == sample_size // number_of_segments, _k, number_of_segments)',
          }}},
          replay=_REPLAY_SEGMENTS)
 
@@ -167,3 +167,13 @@ contract(Q + 'SamplingOfAlternatives.sample_alternatives', 'C19', replay=_REPLAY
                           f"same(pd_frame(chosen_alternative), pd_setcol({_C0}, '_log_proba', {_LP}))), 0, _k)",
              'chosen_out': f"exists(lambda q: old(chosen in self.partition[q].subset), 0, _k) or same(pd_frame(chosen_alternative), {_C0})",
          }}})
+
+# the sampler works on the very objects validated by SamplingContext (check_partition / Partition)
+field_type('SamplingContext', 'second_partition', f'list[{_ST}] | None')
+contract(Q + 'SamplingOfAlternatives.__init__', 'C19',
+         types={'context': 'biogeme.sampling_of_alternatives.sampling_context.SamplingContext'},
+         modifies=['self.alternatives', 'self.id_column', 'self.partition', 'self.second_partition', 'self.cnl_nests'],
+         ensures={'same_table': 'self.alternatives is context.alternatives',
+                  'same_id_column': 'self.id_column == context.id_column',
+                  'same_partition': 'self.partition is context.partition',
+                  'same_second_partition': 'same(self.second_partition, context.second_partition)'})
